@@ -123,25 +123,29 @@ def run_genver_case(case):
     if case["no_iat"]: gargs += [["-n"], ["--no-iat"]][case["flag_style"]]
     if case["claim"]: gargs += spell("c", "claim", ["i:num=42", "s:name=val", "b:flag=true"][case["claim"] - 1], case["c_style"])
     if case["json"]: gargs += spell("j", "json", '{"sub":"x","arr":[1,2]}', case["j_style"])
-    gargs += [["-q"], ["--quiet"]][case["flag_style"]] if case["quiet_g"] else []
+    if case.get("print_g"): gargs += spell("p", "print", "cat", case["p_style_g"])
+    if case["quiet_g"]: gargs += [["-q"], ["--quiet"]][case["flag_style"]]
+    elif case.get("print_g") and case.get("verbose_g"): gargs += [["-v"], ["--verbose"]][case["flag_style"]]
     rc, out, err, san = tool("jwt-generate", gargs, prov=prov)
     stats["evaluations"] += 1; cls("generate+verify-pairs"); cls("key:" + k["type"])
     short_with_arg = case["k_style_g"] in (0, 1) or case["a_style_g"] in (0, 1) or case["a_style_v"] in (0, 1)
     if short_with_arg: nontrivial(("genver", case["key"], with_alg, case["k_style_g"], case["a_style_g"], case["a_style_v"], case["k_style_v"], prov)); cls("short-spelled-options-with-arguments")
     sample({"tool": "jwt-generate", "args": gargs, "exit": rc})
     if san: raise Fail("C20:sanitizer-report:jwt-generate", err[-1500:], case)
-    if rc != 0: raise Fail("C20:jwt-generate:fails-with-documented-options:" + ("short" if case["a_style_g"] in (0, 1) else "long") + "-a", f"args={gargs} exit={rc} stderr={err[-300:]}", case)
+    if rc != 0: raise Fail("C20:jwt-generate:fails-with-documented-options:" + ("short" if case["a_style_g"] in (0, 1) else "long") + "-a" + (",print-" + ("short" if case["p_style_g"] in (0, 1) else "long") if case.get("print_g") else ""), f"args={gargs} exit={rc} stderr={err[-300:]}", case)
     tok = out.strip().split("\n")[-1].strip()
     if case["quiet_g"] and out.strip() != tok: raise Fail("C20:jwt-generate:quiet-prints-more-than-token", out[:300], case)
     hrc, hv = helper(["valid", k["src"], tok])
     if hrc != 0: raise Fail("C20:jwt-generate:token-invalid-under-key", f"token {tok[:80]}... is {hv}", case)
     vargs = spell("k", "key", vk, case["k_style_v"])
     if not with_alg or case["always_alg"]: vargs += spell("a", "algorithm", k["alg"], case["a_style_v"])
+    if case.get("print_v"): vargs += spell("p", "print", "cat", case["p_style_v"])
     vargs += {0: [], 1: [["-q"], ["--quiet"]][case["flag_style"]], 2: [["-v"], ["--verbose"]][case["flag_style"]]}[case["vq"]]
     rc2, out2, err2, san2 = tool("jwt-verify", vargs + [tok], prov=prov)
     if san2: raise Fail("C20:sanitizer-report:jwt-verify", err2[-1500:], case)
     if rc2 != 0:
         which = "short" if case["a_style_v"] in (0, 1) and (not with_alg or case["always_alg"]) else "long-or-none"
+        if case.get("print_v"): which += ",print-" + ("short" if case["p_style_v"] in (0, 1) else "long")
         raise Fail(f"C20:jwt-verify:rejects-token-of-jwt-generate:{which}-a", f"verify args={vargs} exit={rc2} out={out2[-200:]} err={err2[-300:]}", case)
 
 
@@ -234,7 +238,8 @@ verify_cases = st.fixed_dictionaries({"n": st.one_of(st.sampled_from(LENS), st.i
 sty = st.integers(0, 3)
 def genver_cases():
     return st.fixed_dictionaries({"key": st.sampled_from(sorted(KEYS)), "key_has_alg": st.booleans(), "always_alg": st.booleans(), "prov": st.sampled_from(["openssl", "gnutls"]), "k_style_g": sty, "a_style_g": sty, "k_style_v": sty, "a_style_v": sty,
-                                  "c_style": sty, "j_style": sty, "no_iat": st.booleans(), "claim": st.integers(0, 3), "json": st.booleans(), "quiet_g": st.booleans(), "flag_style": st.integers(0, 1), "vq": st.integers(0, 2)})
+                                  "c_style": sty, "j_style": sty, "no_iat": st.booleans(), "claim": st.integers(0, 3), "json": st.booleans(), "quiet_g": st.booleans(), "flag_style": st.integers(0, 1), "vq": st.integers(0, 2),
+                                  "print_g": st.booleans(), "p_style_g": sty, "verbose_g": st.booleans(), "print_v": st.booleans(), "p_style_v": sty})
 convert_cases = st.fixed_dictionaries({"keys": st.lists(st.tuples(st.sampled_from(KEYTYPES), st.sampled_from(["priv", "pub"]), st.booleans(), st.integers(0, 2)), min_size=1, max_size=8), "o_style": sty, "d_style": sty, "quiet": st.booleans(), "flag_style": st.integers(0, 1)})
 
 FNS = {"verify": run_verify_case, "genver": run_genver_case, "convert": run_convert_case}
